@@ -325,7 +325,7 @@ impl<L: ChainListener> ChainTracker<L> {
             if self.allow_deep_reorgs {
                 warn!("reorg too deep, but allowed by flag");
             } else {
-                return Err(Error::ReorgTooDeep);
+                return Err(self.abort_streamed_block(&proof, Error::ReorgTooDeep));
             }
         }
 
@@ -334,19 +334,21 @@ impl<L: ChainListener> ChainTracker<L> {
         // we assume the prev header is correct and use it.
         if !self.headers.is_empty() {
             if supplied_prev_headers.0 != self.headers[0].0 {
-                return Err(error_invalid_chain!(
+                let e = error_invalid_chain!(
                     "supplied prev block header {:?} != self.headers {:?}",
                     supplied_prev_headers.0,
                     self.headers[0].0
-                ));
+                );
+                return Err(self.abort_streamed_block(&proof, e));
             }
             if supplied_prev_headers.1 != self.headers[0].1 {
-                return Err(error_invalid_chain!(
+                let e = error_invalid_chain!(
                     "supplied prev filter header {} != self.headers[0].1 {} for prev block hash {}",
                     supplied_prev_headers.1.to_string(),
                     self.headers[0].1.to_string(),
                     supplied_prev_headers.0.block_hash().to_string()
-                ));
+                );
+                return Err(self.abort_streamed_block(&proof, e));
             }
         };
 
@@ -360,14 +362,16 @@ impl<L: ChainListener> ChainTracker<L> {
         // this is actually validated below in notify_listeners_remove
         let expected_external_block_hash =
             if proof.proof.is_external() { Some(&tip_block_hash) } else { None };
-        self.validate_block(
+        if let Err(e) = self.validate_block(
             self.height - 1,
             expected_external_block_hash,
             &prev_headers,
             &self.tip,
             &proof,
             true,
-        )?;
+        ) {
+            return Err(self.abort_streamed_block(&proof, e));
+        }
         match proof.proof {
             ProofType::Filter(_, spv_proof) =>
                 self.notify_listeners_remove(Some(spv_proof.txs.as_slice()), tip_block_hash),
@@ -474,14 +478,16 @@ impl<L: ChainListener> ChainTracker<L> {
         // this is actually validated below in notify_listeners_remove
         let expected_external_block_hash =
             if proof.proof.is_external() { Some(&message_block_hash) } else { None };
-        self.validate_block(
+        if let Err(e) = self.validate_block(
             self.height,
             expected_external_block_hash,
             &self.tip,
             &headers,
             &proof,
             false,
-        )?;
+        ) {
+            return Err(self.abort_streamed_block(&proof, e));
+        }
         match proof.proof {
             ProofType::Filter(_, spv_proof) =>
                 self.notify_listeners_add(Some(spv_proof.txs.as_slice()), message_block_hash),
@@ -499,6 +505,18 @@ impl<L: ChainListener> ChainTracker<L> {
         self.height += 1;
         info!("added block {}: {}", self.height, &self.tip.0.block_hash());
         Ok(())
+    }
+
+    // a streamed block was rejected - the listeners must forget what was pushed to them,
+    // otherwise the next streamed block would be mixed up with it
+    fn abort_streamed_block(&mut self, proof: &TxoProof, e: Error) -> Error {
+        if proof.proof.is_external() {
+            self.decode_state = None;
+            for (listener, _) in self.listeners.values() {
+                listener.on_streamed_block_aborted();
+            }
+        }
+        e
     }
 
     // if we're decoding a block, tell the decoder we are done.
@@ -795,6 +813,10 @@ pub trait ChainListener: SendSync {
     fn on_push<F>(&self, f: F)
     where
         F: FnOnce(&mut dyn PushListener);
+
+    /// A streamed block was rejected after some or all of it was pushed.
+    /// The listener must discard whatever it gathered from the pushes.
+    fn on_streamed_block_aborted(&self) {}
 }
 
 /// Convert the Network to a max target value for each network.
